@@ -90,7 +90,7 @@ def short(kinds):
 
 def propagated_error_possible(scn, node):
     """An error exit may have been announced to this node and obeyed by it (its run() then returns normally)."""
-    if scn.get('how') != 'raise':
+    if scn.get('how') not in ('raise', 'interrupt', 'sysexit'):
         return False
     pol = {n['id']: n for n in scn['nodes']}
     return pol[node].get('obey_exit') in ('all', 'error') and node != scn['x']
@@ -108,6 +108,24 @@ def gen(rng, seed):
     scn['lineage'] = {'interval_s': {'long': 10, 'about': 0.02, 'short': 0.001}[cls], 'cls': cls,
                       'client_fault': rng.choice([None, None, None, 'terminal', 'start', 'running', 'every'])}
     scn['until_ms'] = 6000
+    r = rng.random()
+    if r < 0.12 and scn['point'] == 'process':
+        # the run is interrupted rather than failed: Ctrl-C / SystemExit inside process() - "ABORT if it ended by an error or was interrupted"
+        how = rng.choice(['interrupt', 'sysexit'])
+        for n in scn['nodes']:
+            if n['id'] == scn['x'] and (n['beh'].get('inject') or {}).get('point') == 'process':
+                n['beh']['inject']['how'] = how
+                scn['how'] = how
+    elif r < 0.3:
+        # the same filter is run again in the same process (clean stop, then a second run with the same emitter object)
+        cand = [n['id'] for n in scn['nodes'] if n['id'] != scn['x']]
+        if cand:
+            v = rng.choice(cand)
+            for n in scn['nodes']:
+                if n['id'] == v:
+                    n['prop_exit'] = 'none'
+            scn['faults'] = list(scn.get('faults') or ()) + [{'at_ms': rng.randint(150, 500), 'kind': 'clean_restart', 'node': v, 'delay_ms': rng.choice([0, 100])}]
+            scn['lineage']['reuse_emitter'] = True
     return scn
 
 
